@@ -76,6 +76,56 @@ def bisect_case(case):
     return r
 
 
+def mixed_case(case):
+    """queries of ANOTHER float type than the array searched, at values the array's type cannot hold (the neighbours, in the query's type, of every
+    element), laid out along 1, 2 and 3 axes: the index is decided by the exact values of both, and the vector search agrees with the scalar one."""
+    de, U, _ = _imports()
+    r = Res()
+    da, dq = DTYPES[case["adtype"]], DTYPES[case["qdtype"]]
+    n = case["length"]
+    LDt = np.longdouble
+    for combo in itertools.combinations(GRID9[::2] + [0.5], n) if n > 1 else [(v,) for v in GRID9[::2]]:
+        combo = tuple(sorted(combo))
+        arr = np.array(combo, dtype=da)
+        qs = []
+        for e in arr:
+            eq = dq(e)
+            qs += [eq, np.nextafter(eq, dq(np.inf)), np.nextafter(eq, dq(-np.inf))]
+        qs += [dq(-3), dq(3), dq(0.25), dq(0.1), dq(-0.7)]
+        qarr = np.array(qs, dtype=dq)
+        al = arr.astype(LDt)
+        expect = np.array([min(int(np.sum(al < LDt(q))), n - 1) for q in qarr])
+        got_s = np.array([int(U.search_bisection(arr, q)) for q in qarr])
+        r.n += len(qarr)
+        ctxd = dict(section="mixed", adtype=case["adtype"], qdtype=case["qdtype"], length=n, array=[float(v) for v in combo])
+        if not np.array_equal(got_s, expect):
+            i = int(np.nonzero(got_s != expect)[0][0])
+            r.v("C17/bisection/scalar-mixed-types", "index of first element not smaller than the query (clipped), query of another float type",
+                dict(ctxd, query=repr(qarr[i])), observed=int(got_s[i]), expected=int(expect[i]))
+        for lay in ("1d", "2d", "3d"):
+            m = len(qarr)
+            if lay == "1d":
+                Q, E = qarr, expect
+            elif lay == "2d":
+                Q, E = np.concatenate([qarr, qarr[:m % 2]]).reshape(2, -1), np.concatenate([expect, expect[:m % 2]]).reshape(2, -1)
+            else:
+                pad = (-m) % 4
+                Q, E = np.concatenate([qarr, qarr[:pad]]).reshape(2, 2, -1), np.concatenate([expect, expect[:pad]]).reshape(2, 2, -1)
+            r.n += 1
+            try:
+                got = np.asarray(U.search_bisection_vec(arr, Q.copy()))
+            except Exception as e:
+                r.v("C17/bisection/vector-mixed-types", "vector search accepts query arrays of any layout", dict(ctxd, layout=lay), observed=repr(e)[:200], expected="indices")
+                continue
+            if got.shape != E.shape or not np.array_equal(got, E):
+                bad = None if got.shape != E.shape else tuple(int(v) for v in np.argwhere(got != E)[0])
+                r.v("C17/bisection/vector-mixed-types", "vector search equals the scalar specification for queries of another float type / layout",
+                    dict(ctxd, layout=lay, query=None if bad is None else repr(Q[bad])),
+                    observed=list(got.shape) if bad is None else int(got[bad]), expected=list(E.shape) if bad is None else int(E[bad]))
+    r.out(("mixed", case["adtype"], case["qdtype"], n))
+    return r
+
+
 # ------------------------------------------------------------------ Hermite
 LAT5 = [-1.5, -0.5, 0.0, 0.75, 2.0]
 FAR_INTERVALS = [(1000.0, 1000.003), (1000.003, 1000.0), (-250.3, -250.31), (-250.31, -250.3), (4096.1, 4096.7), (33.3, 33.1)]
@@ -205,17 +255,19 @@ def hermite_case(case):
 
 
 def run_case(case):
-    return bisect_case(case) if case["section"] == "bisect" else hermite_case(case)
+    return dict(bisect=bisect_case, mixed=mixed_case, hermite=hermite_case)[case["section"]](case)
 
 
 def run(ctx):
     ctx.rule = ("bisection: every strictly increasing array of length 1..7 over a 9-point grid (501 arrays) x 21 queries on the refined grid "
                 "(equal to elements, between, outside) x {float32, float64, longdouble, python list}, scalar and vector search against "
-                "min(searchsorted(left), n-1); Hermite: 7 cubics (4 monomials + 3 combinations) x 20 ordered intervals on a 5-point lattice "
+                "min(searchsorted(left), n-1); mixed types: array type x other query type x arrays of length 1..5 x queries = every element and its two neighbours "
+                "in the QUERY's type (+5 others) x query layout {1, 2, 3 axes}, against exact comparison in extended precision; Hermite: 7 cubics (4 monomials + 3 combinations) x 20 ordered intervals on a 5-point lattice "
                 "(both orientations) x 37 evaluation points inside/outside x scalar/array-valued data x 3 dtypes; "
                 "distinct = distinct (section, dtype, length | cubic, result-set | orientation) classes")
     ctx.assumptions += ["Hermite tolerance = 64*eps*sum|basis_i|(|t|)*|data_i| (absolute-coefficient bound of the basis polynomials); bisection compared exactly"]
     cases = [dict(section="bisect", dtype=d, length=n) for d in list(DTYPES) + ["list"] for n in range(1, 8)]
+    cases += [dict(section="mixed", adtype=a, qdtype=q, length=n) for a in DTYPES for q in DTYPES if a != q for n in range(1, 6)]
     cases += [dict(section="hermite", dtype=d, shape=s, cubic=c) for d in DTYPES for s in ([], [3], [2, 2]) for c in CUBICS]
     grid.pmap(run_case, cases, ctx, horizon=300, chunksize=1)
 
@@ -224,4 +276,6 @@ def replay(case):
     # a recorded case names one array/query (bisect) or one interval (hermite); re-run the enclosing cell
     if case["section"] == "bisect":
         return bisect_case(dict(section="bisect", dtype=case["dtype"], length=case["length"]))
+    if case["section"] == "mixed":
+        return mixed_case(dict(section="mixed", adtype=case["adtype"], qdtype=case["qdtype"], length=case["length"]))
     return hermite_case(dict(section="hermite", dtype=case["dtype"], shape=case["shape"], cubic=case["cubic"]))
